@@ -573,10 +573,16 @@ async fn watch_membership_changes(
         {
             let mut data_centers = BTreeMap::<Cow<'static, str>, Nodes>::new();
             let mut known_addrs = HashSet::with_capacity(members.len());
+            // Our own address is ours, in our data center, whichever stale
+            // identity of ours might still be listed with it elsewhere.
+            let self_addr = members.get(&self_node_id).map(|m| m.public_addr);
+            known_addrs.extend(self_addr);
             for member in members.values() {
                 // A peer which re-joined under a new node ID can still be listed with
                 // its old one, it is one node to select and must only be listed once.
-                if !known_addrs.insert(member.public_addr) {
+                if member.node_id != self_node_id
+                    && !known_addrs.insert(member.public_addr)
+                {
                     continue;
                 }
 
